@@ -27,8 +27,9 @@ def Alloc.touch (a : Alloc K) : List Ix := mentions a.c ++ [node a.d, br a.b]
 /-- the unknowns that may be private to the step -/
 def Alloc.priv (a : Alloc K) : List Ix := [node a.d, br a.b] ++ indBr a.c
 
-/-- the dummy node is a new non-ground node and the new branch index is unused by the component -/
-def Alloc.Fresh (a : Alloc K) : Prop := a.d ≠ 0 ∧ node a.d ∉ mentions a.c ∧ br a.b ∉ mentions a.c
+/-- the dummy node is a new non-ground node, unused by the component (branch indices are kept apart from the OTHER
+    steps by `Apart` / `Rw.Sep`; an inductor's source inherits the inductor's own branch index) -/
+def Alloc.Fresh (a : Alloc K) : Prop := a.d ≠ 0 ∧ node a.d ∉ mentions a.c
 
 /-- nothing of step `q` touches what may be private to step `p` -/
 def Alloc.Apart (p q : Alloc K) : Prop := ∀ i ∈ p.priv, i ∉ q.touch
@@ -123,12 +124,20 @@ theorem apart_sep (s : K) (p q : Alloc K) (h : p.Apart q) :
       · exact List.mem_append_right _ h
       · exact List.mem_append_left _ h)
 
+theorem sep_back (s : K) (p q : Alloc K) (h : (p.sRw s).Sep (q.sRw s)) : (p.sRwBack s).Sep (q.sRwBack s) := by
+  intro c hc
+  apply h c
+  simp only [Alloc.sRwBack, Alloc.sRw] at hc ⊢
+  rcases List.mem_append.mp hc with h' | h'
+  · exact List.mem_append_right _ h'
+  · exact List.mem_append_left _ h'
+
 /-- one step of `_s_model` is a simulation in both directions (initial-value analysis at `s ≠ 0`) -/
 theorem sModel_step (s : K) (hs : s ≠ 0) (a : Alloc K) (hok : a.OK s) :
     Simulates .ivp s (AllBut' (sModelHidden a.d a.b a.c)) [a.c] (sModelCpt s a.d a.b a.c) ∧
     Simulates .ivp s (AllBut' (sModelHidden a.d a.b a.c)) (sModelCpt s a.d a.b a.c) [a.c] := by
   obtain ⟨c, d, b⟩ := a
-  obtain ⟨⟨hd0, hdn, hbn⟩, hc⟩ := hok
+  obtain ⟨⟨hd0, hdn⟩, hc⟩ := hok
   cases c with
   | R n1 n2 r => exact sim_R_Y .ivp s _ n1 n2 r
   | Y n1 n2 y => exact sim_Y_Y .ivp s _ n1 n2 y
@@ -203,7 +212,7 @@ theorem noisy_step (kind : Kind) (s : K) (a : Alloc K) (hf : a.Fresh) :
     Simulates kind s (AllBut' (noisyHidden a.d a.b a.c)) [a.c] (noisyKilledCpt a.d a.b a.c) ∧
     Simulates kind s (AllBut' (noisyHidden a.d a.b a.c)) (noisyKilledCpt a.d a.b a.c) [a.c] := by
   obtain ⟨c, d, b⟩ := a
-  obtain ⟨hd0, hdn, _⟩ := hf
+  obtain ⟨hd0, hdn⟩ := hf
   cases c with
   | R n1 n2 r =>
     have hd1 : d ≠ n1 := by intro h; apply hdn; simp [mentions, h]
